@@ -72,6 +72,12 @@ def h_member(hx):
     chk = T(RS.check(w, k))
     hx.prove(IFF(chk, RS.generate(w[:9], k) == w), "check(w) <=> w == generate(w[:9]) for every 12-octet word")
     hx.prove(IFF(chk, zero), "check(w) <=> all three syndromes of the unmasked word are zero (exactly the multiples of the generator polynomial)")
+    # a second check of another word under another mask, right after: verdicts do not depend on earlier calls
+    w2, k2 = hx.bytes(12, "w2"), hx.bytes(3, "k2")
+    c2 = list(w2[:9]) + [x ^ y for x, y in zip(list(w2[9:]), list(k2))]
+    zero2 = AND(*[syndrome(c2, j) == 0 for j in (1, 2, 3)])
+    hx.prove(IFF(RS.check(w2, k2), zero2), "check(w2, k2) right after check(w, k): accepts exactly the codewords under ITS mask")
+    hx.prove(IFF(RS.check(w, k), zero), "check(w, k) again: same verdict")
     hx.cover("member")
 
 
